@@ -21,6 +21,8 @@ def run(prog, tier, extra=None):
     R1 = res.rule("C04.undo", "every FailedNotValid exit after an insertion passes the undo", floor=2)
     R3 = res.rule("C04.undo-touches-ledger", "the undo of a rejected block reaches no UtxoSet mutator", floor=2)
     R2 = res.rule("C04.undo-complete", "the undo removes the block from Blockchain.blocks and from the block ring", floor=2)
+    R5 = res.rule("C04.index-delete-neutral", "deleting a block from the ring moves the longest-chain marker of its slot only relative to the old marker", floor=1)
+    R4 = res.rule("C04.recovery-rewinds-old-chain", "after a failed wind some wind step can apply the blocks of the old chain again", floor=2)
     ab = prog.body(BC + "add_block::{closure#0}")
     if ab is None:
         raise LookupError("add_block not found")
@@ -91,6 +93,129 @@ def run(prog, tier, extra=None):
                             {"call_path": [e.dst.replace(CORE, "") for e in (path or [])]}))
         else:
             res.sample({"rule": R3, "undo": tgt.replace(CORE, ""), "verdict": "reaches no UtxoSet mutator"})
+    # R4: a reorganisation first unwinds old_chain; when a block of new_chain then fails, "exactly as they were before the call"
+    # needs old_chain's blocks applied again. The only body that applies a block is wind_chain (C03.ledger-owner), and it applies
+    # chain[index] of the chain it is handed. So either some call of wind_chain is handed (something derived from) the old chain,
+    # or wind_chain itself takes elements of its old_chain parameter. If neither, no execution can restore the old chain.
+    from ..expr import Chaser, strip, walk
+    WIND = BC + "wind_chain"
+    wind_body = prog.body(WIND + "::{closure#0}")
+    if wind_body is None:
+        raise LookupError("wind_chain not found")
+
+    def param_fields(body, e):
+        """names of the parameters / coroutine-captured parameters an expression is read from"""
+        out = set()
+        for x in walk(e):
+            if x[0] == "field" and strip(x[1])[0] == "param":
+                out.add(x[3])
+            elif x[0] == "param" and x[2]:
+                out.add(x[2])
+        return out
+    sites = []
+    for b in cg.bodies.values():
+        if "::tests::" in b.path or "/test/" in b.file:
+            continue
+        chb = None
+        for bb, t in b.calls():
+            if (t.get("res") or t.get("callee")) != WIND or len(t["args"]) < 3:
+                continue
+            chb = chb or Chaser(b)
+            sites.append((b, bb, param_fields(b, chb.origin(t["args"][1]))))
+    res.instance(R4, len(sites))
+    chw = Chaser(wind_body)
+    takes_old = []
+    for bb, t in wind_body.calls():
+        n = (call_name(t) or "").rsplit("::", 1)[-1]
+        if n in ("index", "get", "first", "last", "iter", "to_vec", "split_last", "split_first", "get_unchecked", "into_iter") and t["args"]:
+            if "old_chain" in param_fields(wind_body, chw.origin(t["args"][0])):
+                takes_old.append(bb)
+    handed_old = [(b, bb) for b, bb, names in sites if "old_chain" in names]
+    if not sites:
+        res.add(Finding(R4, "C04.recovery-rewinds-old-chain|anchors", "no call of wind_chain found (anchor moved?)", wind_body.loc(0)))
+    elif not handed_old and not takes_old:
+        b0, bb0, _ = sites[0]
+        res.add(Finding(R4, "C04.recovery-rewinds-old-chain|never",
+                        "every call of wind_chain winds new_chain (%s) and wind_chain takes no block from old_chain: once old_chain has been unwound and a block of "
+                        "new_chain fails to validate, nothing can apply old_chain's blocks again - the failed reorganisation is not rolled back (and the "
+                        "Wind/Unwind loop re-tries the failing block)" % ", ".join(sorted({b.loc(bb) for b, bb, _ in sites})), b0.loc(bb0),
+                        {"wind_chain_calls": [{"site": b.loc(bb), "chain_argument_from": sorted(n)} for b, bb, n in sites]}))
+    else:
+        res.sample({"rule": R4, "wind_chain_calls": [{"site": b.loc(bb), "chain_argument_from": sorted(n)} for b, bb, n in sites],
+                    "wind_chain_reads_old_chain_at": [wind_body.loc(x) for x in takes_old], "verdict": "the old chain can be wound again"})
+    # R5: the undo deletes the rejected block from its ring slot. The slot's longest-chain marker (RingItem.lc_pos) must come out
+    # of that as it went in (shifted if an earlier entry was removed, None only if the marked entry itself was removed): every value
+    # that can be stored into lc_pos on the deletion path is either read from / decided by the old lc_pos, or the constant None
+    # assigned outside any loop (the default). A constant Some(k), or a None decided by something other than the old marker, makes a
+    # refused block change which block the index calls "on the longest chain".
+    from ..expr import has_field as _has_field
+    from ..fields import place_has_field
+    del_reach = cg.reachable_from([RING_DEL], kinds=("call", "await"))
+    n5 = 0
+    for p in sorted(del_reach | {RING_DEL}):
+        b = prog.body(p)
+        if b is None or b.is_promoted:
+            continue
+        chb = Chaser(b)
+        stores = []
+        for bb, blk in enumerate(b.blocks):
+            for st in blk["s"]:
+                if st[0] == "=" and place_has_field(st[1], "ringitem::RingItem", "lc_pos") is not None:
+                    stores.append((bb, st))
+        for bb, st in stores:
+            n5 += 1
+            res.instance(R5)
+            # the values that can flow into the store: the rvalue, or every definition of the local it copies
+            vals = []
+
+            def expand(block, e, seen):
+                x = strip(e)
+                if x[0] == "local" and x[1] not in seen and x[1] > b.argc and b.defs(x[1]):
+                    seen.add(x[1])
+                    for d in b.defs(x[1]):
+                        if d[0] == "stmt":
+                            expand(d[1], chb.rvalue(d[3], 0), seen)
+                        else:
+                            vals.append((d[1], ("call", "?", [], d[1])))
+                else:
+                    vals.append((block, e))
+            expand(bb, chb.rvalue(st[2], 0), set())
+
+            def decided_by_old_marker(vb):
+                for sb, blk2 in enumerate(b.blocks):
+                    t2 = blk2["t"]
+                    if t2["k"] != "switch" or sb == vb or not b.dominates(sb, vb):
+                        continue
+                    if not _has_field(chb.origin(t2["discr"]), "ringitem::RingItem", "lc_pos"):
+                        continue
+                    # within one iteration: paths that go round the enclosing loop again do not count
+                    h = b.innermost_loop_containing([sb, vb])
+                    blocked = {h} if h is not None and h not in (vb, sb) else set()
+                    if any(vb not in b.reachable(s2, blocked=blocked) for s2 in b.succ(sb)):
+                        return True
+                return False
+            bad = None
+            for vb, e in vals:
+                x = strip(e)
+                is_none = (x[0] == "agg" and x[1][0] == "adt" and x[1][2] == "None") or (x[0] == "const" and "None" in (x[2] or ""))
+                in_loop = b.innermost_loop_containing([vb]) is not None
+                if _has_field(e, "ringitem::RingItem", "lc_pos") or decided_by_old_marker(vb):
+                    continue
+                if is_none and not in_loop:
+                    continue
+                bad = (vb, e, is_none)
+                break
+            name = p.replace(CORE, "")
+            if bad:
+                vb, e, is_none = bad
+                from ..expr import show as _show
+                res.add(Finding(R5, "C04.index-delete-neutral|%s|%s" % (p, "none-in-loop" if is_none else "constant"),
+                                "%s can leave the slot's longest-chain marker at %s, a value that does not depend on the old marker: deleting a (rejected) block "
+                                "changes which block of that height the index reports as on the longest chain" % (name, _show(e)[:40]), b.loc(vb)))
+            else:
+                res.sample({"rule": R5, "body": name, "store": b.loc(bb), "values": len(vals), "verdict": "every stored value derives from the old marker (or is the None default)"})
+    if n5 == 0:
+        res.add(Finding(R5, "C04.index-delete-neutral|anchors", "no store to RingItem.lc_pos found on the deletion path (anchor moved?)", ab.loc(0)))
     if len(inserts) < 2:
         res.add(Finding(R1, "C04.undo|anchors", "expected both insertions (block ring and Blockchain.blocks) in add_block, found %d" % len(inserts), ab.loc(0)))
     res.explanation = (
